@@ -74,6 +74,17 @@ void Service::OnAllConfigLoaded()
 	}
 }
 
+void Service::Stop(bool runtimeRemoved)
+{
+	ObjectImpl<Service>::Stop(runtimeRemoved);
+
+	/* A service removed at runtime must not stay reachable through its host: Service::GetByNamePair()
+	 * would keep returning it, and comments, downtimes, notifications and dependencies could still be
+	 * created for it. */
+	if (runtimeRemoved && m_Host)
+		m_Host->RemoveService(this);
+}
+
 void Service::CreateChildObjects(const Type::Ptr& childType)
 {
 	if (childType == ScheduledDowntime::TypeInstance)
